@@ -151,6 +151,10 @@ pub fn id_pool() -> &'static Vec<Option<&'static str>> {
         }
         v.push(Some(intern("用户甲@例子.cn")));
         v.push(Some(intern("\u{0}\u{1}ctl\u{7f}")));
+        // whitespace at the edges and blank IDs: an ID is a byte string, nothing may be trimmed or substituted
+        for s in [" lead", "trail\n", "\tboth \r\n", "   ", "\n"] {
+            v.push(Some(intern(s)));
+        }
         v
     })
 }
